@@ -64,7 +64,7 @@ try:
     for cid in checks:
         t0 = time.time()
         r = subprocess.run(['./check', cid, '--tier', a.tier], cwd='/verif', capture_output=True, text=True,
-                           env=dict(os.environ, PMC_REPO=wt))
+                           env=dict(os.environ, PMC_REPO=wt, PMC_OUT='/tmp/pmc_out'))
         lines = r.stdout.strip().splitlines()
         sigs = [ln.strip()[len('signature='):] for ln in lines if ln.strip().startswith('signature=')]
         meta['checks'][cid] = {'exit': r.returncode, 'tier': a.tier, 'violations': sum(ln.startswith('VIOLATION') for ln in lines),
